@@ -736,5 +736,137 @@ mod verif_deflate_core {
         kani::cover!(!aligned, "COV:flushmark.unaligned");
     }
 
+    // ------------------------------------------------------------------
+    // K-normalstep : the real compress_normal on a few bytes, from a symbolic parser state (saved lazy match,
+    // lookahead, dictionary size, window bits, flags), with find_match / record_match / record_literal /
+    // flush_block replaced by contract models that ASSERT their preconditions at the real call sites and keep
+    // a ghost log. Decides the token-level clauses of C10/C11 and the lazy-match bookkeeping of C02.
+    // ------------------------------------------------------------------
+    use core::sync::atomic::{AtomicUsize as AU, AtomicU32 as A32, Ordering::Relaxed as RLX};
+    static NS_CAP: AU = AU::new(0);          // 1 << max(window_bits_max, 8)
+    static NS_FLAGS: A32 = A32::new(0);
+    static NS_RECORDED: AU = AU::new(0);     // bytes covered by recorded tokens
+    static NS_TOKENS: AU = AU::new(0);
+    static NS_FM_POS: [AU; 2] = [AU::new(usize::MAX), AU::new(usize::MAX)];   // last two find_match calls
+    static NS_FM_DIST: [A32; 2] = [A32::new(0), A32::new(0)];
+    static NS_FM_LEN: [A32; 2] = [A32::new(0), A32::new(0)];
+    static NS_BASE: AU = AU::new(0);         // stream position of the first byte not yet covered at entry
+    static NS_SIZE_AT_BASE: AU = AU::new(0); // history available before NS_BASE
+
+    fn model_find_match(this: &DictOxide, lookahead_pos: usize, max_dist: usize, max_match_len: u32, match_dist: u32, match_len: u32) -> (u32, u32) {
+        assert!(max_dist <= this.size, "OBL:normal.find_match_never_reaches_before_start_of_data [C10 C01]");
+        assert!(max_dist <= NS_CAP.load(RLX), "OBL:normal.find_match_distance_capped_by_declared_window [C11]");
+        assert!(max_match_len as usize <= 258 + 3, "OBL:normal.find_match_limited_to_lookahead [C01 C10]");
+        // contract of find_match (K-findmatch): either the incoming (dist, max(len,1)) or a strictly longer match within bounds
+        let better: bool = kani::any();
+        let (d, l) = if better && max_dist >= 1 && (match_len.max(1)) < max_match_len.min(258) {
+            let d: u32 = kani::any();
+            let l: u32 = kani::any();
+            kani::assume(d >= 1 && d as usize <= max_dist && l > match_len.max(1) && l <= max_match_len.min(258));
+            (d, l)
+        } else { (match_dist, match_len.max(1)) };
+        NS_FM_POS[1].store(NS_FM_POS[0].load(RLX), RLX); NS_FM_DIST[1].store(NS_FM_DIST[0].load(RLX), RLX); NS_FM_LEN[1].store(NS_FM_LEN[0].load(RLX), RLX);
+        NS_FM_POS[0].store(lookahead_pos, RLX); NS_FM_DIST[0].store(d, RLX); NS_FM_LEN[0].store(l, RLX);
+        (d, l)
+    }
+
+    fn model_record_match(h: &mut HuffmanOxide, lz: &mut LZOxide, match_len: u32, match_dist: u32) {
+        let flags = NS_FLAGS.load(RLX);
+        assert!(match_len >= 3 && match_len <= 258, "OBL:normal.match_length_3_to_258 [C10]");
+        assert!(match_dist >= 1 && match_dist <= 32768, "OBL:normal.match_distance_1_to_32768 [C10]");
+        assert!(match_dist as usize <= NS_CAP.load(RLX), "OBL:normal.match_distance_within_declared_window [C11]");
+        if flags & TDEFL_RLE_MATCHES != 0 { assert!(match_dist == 1, "OBL:normal.rle_mode_only_distance_1 [C10 C11]"); }
+        if flags & TDEFL_FILTER_MATCHES != 0 { assert!(match_len >= 5, "OBL:normal.filtered_mode_no_match_shorter_than_5 [C10]"); }
+        if flags & MAX_PROBES_MASK == 0 && flags & TDEFL_RLE_MATCHES == 0 { assert!(false, "OBL:normal.huffman_only_emits_no_matches [C10]"); }
+        // the match must have been found AT the stream position where this token starts (lazy matching records the
+        // previous position's match one step later), and it must not reach before the start of the data
+        let start = NS_BASE.load(RLX) + NS_RECORDED.load(RLX);
+        assert!(match_dist as usize <= NS_SIZE_AT_BASE.load(RLX) + NS_RECORDED.load(RLX), "OBL:normal.match_never_reaches_before_start_of_data [C10 C01]");
+        if flags & TDEFL_RLE_MATCHES == 0 {
+            let hit0 = NS_FM_POS[0].load(RLX) == start && NS_FM_DIST[0].load(RLX) == match_dist && NS_FM_LEN[0].load(RLX) == match_len;
+            let hit1 = NS_FM_POS[1].load(RLX) == start && NS_FM_DIST[1].load(RLX) == match_dist && NS_FM_LEN[1].load(RLX) == match_len;
+            let carried = NS_TOKENS.load(RLX) == 0 && NS_SAVED_VALID.load(RLX) == 1; // saved match carried in from the previous call
+            assert!(hit0 || hit1 || carried, "OBL:normal.recorded_match_was_found_at_its_own_position [C01 C02]");
+        }
+        NS_RECORDED.fetch_add(match_len as usize, RLX);
+        NS_TOKENS.fetch_add(1, RLX);
+        lz.total_bytes += match_len;
+    }
+    static NS_SAVED_VALID: AU = AU::new(0);
+    fn model_record_literal(h: &mut HuffmanOxide, lz: &mut LZOxide, lit: u8) {
+        NS_RECORDED.fetch_add(1, RLX);
+        NS_TOKENS.fetch_add(1, RLX);
+        lz.total_bytes += 1;
+    }
+    fn model_flush_block_noop(d: &mut CompressorOxide, callback: &mut CallbackOxide, flush: TDEFLFlush) -> Result<i32> { Ok(0) }
+
+    #[kani::proof]
+    #[kani::unwind(8)]
+    #[kani::stub(DictOxide::find_match, model_find_match)]
+    #[kani::stub(record_match, model_record_match)]
+    #[kani::stub(record_literal, model_record_literal)]
+    #[kani::stub(flush_block, model_flush_block_noop)]
+    fn k_normal_step_zeros() { normal_step_body([0, 0, 0], 0, 3); normal_step_body([0, 0, 0], 2, 2); }
+    /// distinct input bytes: no run, so the RLE branch finds nothing; zeros: runs (window content is zero too)
+    #[kani::proof]
+    #[kani::unwind(8)]
+    #[kani::stub(DictOxide::find_match, model_find_match)]
+    #[kani::stub(record_match, model_record_match)]
+    #[kani::stub(record_literal, model_record_literal)]
+    #[kani::stub(flush_block, model_flush_block_noop)]
+    fn k_normal_step_distinct() { normal_step_body([1, 2, 3], 0, 3); normal_step_body([1, 2, 3], 2, 2); }
+    fn normal_step_body(inb: [u8; 3], la0: usize, inl: usize) {
+        let mut d = any_compressor!();
+        let flags = d.params.flags;
+        kani::assume(flags & TDEFL_FORCE_ALL_RAW_BLOCKS == 0);
+        NS_FLAGS.store(flags, RLX);
+        NS_RECORDED.store(0, RLX); NS_TOKENS.store(0, RLX);
+        NS_FM_POS[0].store(usize::MAX, RLX); NS_FM_POS[1].store(usize::MAX, RLX);
+        NS_CAP.store(1usize << core::cmp::max(d.params.window_bits_max, 8), RLX);
+        // symbolic parser state between two calls
+        // concrete positions and input bytes (symbolic ones mean symbolic-index writes into the 33 KiB window and
+        // the two 64 KiB hash tables: > 12 GB); everything the token logic branches on stays symbolic
+        let pos0: usize = 40000;
+        let size0: usize = kani::any();
+        kani::assume(la0 <= 2 && size0 <= LZ_DICT_SIZE - la0 && size0 <= pos0);
+        d.dict.lookahead_size = la0;
+        d.dict.lookahead_pos = pos0;
+        d.dict.size = size0;
+        let sl: u32 = kani::any();
+        let sd: u32 = kani::any();
+        // a carried lazy match was found one position earlier within the lookahead of that time
+        kani::assume(sl == 0 || (sl >= 3 && sl as usize <= la0 + 1 && sd >= 1 && (sd as usize) < size0 + 1 && sd as usize <= NS_CAP.load(RLX)
+            && (flags & TDEFL_RLE_MATCHES == 0) && !d.params.greedy_parsing && (flags & TDEFL_FILTER_MATCHES == 0 || sl >= 6)));
+        d.params.saved_match_len = sl;
+        d.params.saved_match_dist = sd;
+        d.params.saved_lit = kani::any();
+        NS_SAVED_VALID.store((sl != 0) as usize, RLX);
+        NS_BASE.store(pos0 - (sl != 0) as usize, RLX);
+        NS_SIZE_AT_BASE.store(size0 - (sl != 0) as usize, RLX);
+        d.params.flush = any_flush();
+        kani::assume(d.params.flush != TDEFLFlush::None);
+        d.params.src_pos = 0;
+        let mut outb = [0u8; 8];
+        let ok;
+        {
+            let mut cb = CallbackOxide::new_callback_buf(&inb[..inl], &mut outb[..]);
+            ok = compress_normal(&mut d, &mut cb);
+        }
+        assert!(ok, "OBL:normal.succeeds_when_no_block_flush_needed [C02]");
+        assert!(d.params.src_pos == inl, "OBL:normal.consumes_all_offered_input [C02]");
+        assert!(d.dict.lookahead_size == 0, "OBL:normal.flush_request_drains_lookahead [C02 C12]");
+        // every byte that left the lookahead is covered by exactly one token, except the first byte of a pending lazy match
+        let moved = d.dict.lookahead_pos - pos0;
+        assert!(moved == la0 + inl, "OBL:normal.lookahead_pos_advances_by_bytes_processed [C02]");
+        let pend0 = (sl != 0) as usize;
+        let pend1 = (d.params.saved_match_len != 0) as usize;
+        assert!(moved + pend0 == NS_RECORDED.load(RLX) + pend1, "OBL:normal.every_byte_covered_by_exactly_one_token [C01 C02]");
+        assert!(pend1 == 0, "OBL:normal.no_lazy_match_left_pending_after_flush_request [C02 C12]");
+        assert!(d.dict.size <= LZ_DICT_SIZE && d.dict.size == core::cmp::min(size0 + moved, LZ_DICT_SIZE), "OBL:normal.dict_size_tracks_history [C10]");
+        kani::cover!(NS_TOKENS.load(RLX) >= 2, "COV:normal.two_tokens");
+        kani::cover!(sl != 0, "COV:normal.carried_lazy_match");
+        kani::cover!(flags & TDEFL_RLE_MATCHES != 0 && NS_RECORDED.load(RLX) > NS_TOKENS.load(RLX), "COV:normal.rle_match");
+    }
+
     //@PLAYBACK@
 }
